@@ -640,7 +640,7 @@ def rule_subaxis(ctx):
             ctx.holds('R7', 'Axis.take')
 
 
-def rule_orthogonal_indexer(ctx):
+def rule_orthogonal_indexer(ctx, rid='R8'):
     """R8: kind-level abstract interpretation of orthogonal_indexer over all key patterns of length 1..4 on {int, full slice, partial slice, 1-d array}.
     NumPy's rule (trusted): when a key contains an array, integers count as advanced indices too; advanced indices separated by a slice move the
     advanced dimensions to the front.  Orthogonal (outer) indexing therefore needs (a) every array / partial slice converted by np.ix_ when more than
@@ -648,7 +648,7 @@ def rule_orthogonal_indexer(ctx):
     import itertools
     from .. import absint
     from ..absint import Kind, Interp, Closure, Undecided, Raised
-    ctx.rule('R8', 'orthogonal_indexer keeps the dimension order for every key pattern (length <= 4)', 300)
+    ctx.rule(rid, 'orthogonal_indexer keeps the dimension order for every key pattern (length <= 4)', 300)
     fi = ctx.fn(IDX + 'orthogonal_indexer')
     mod = fi.module
     kind_types = {'INT': {'int', 'np.integer'}, 'FULL': {'slice'}, 'SL': {'slice'}, 'ARR': {'np.ndarray'}, 'IX': {'np.ndarray'}}
@@ -673,14 +673,14 @@ def rule_orthogonal_indexer(ctx):
             try:
                 out = interp.call_function(fi.node, [key, shape], env)
             except Undecided as e:
-                ctx.undecide('R8', 'orthogonal_indexer: %s (pattern %s)' % (e, pat))
+                ctx.undecide(rid, 'orthogonal_indexer: %s (pattern %s)' % (e, pat))
                 return
             except Raised as e:
-                ctx.violated('R8', fi, 'pattern %s raises %s' % (','.join(pat), e.name), 'orthogonal_indexer raises %s for the index kinds (%s)' % (e.name, ', '.join(pat)))
+                ctx.violated(rid, fi, 'pattern %s raises %s' % (','.join(pat), e.name), 'orthogonal_indexer raises %s for the index kinds (%s)' % (e.name, ', '.join(pat)))
                 nbad += 1
                 continue
             if not (isinstance(out, tuple) and len(out) == n and all(isinstance(k, Kind) for k in out)):
-                ctx.undecide('R8', 'orthogonal_indexer returned %r for %s' % (out, pat))
+                ctx.undecide(rid, 'orthogonal_indexer returned %r for %s' % (out, pat))
                 return
             res = [k.name for k in out]
             narr = sum(1 for k in pat if k in ('ARR', 'SL'))
@@ -702,14 +702,14 @@ def rule_orthogonal_indexer(ctx):
             if why:
                 nbad += 1
                 if nbad <= 3:
-                    ctx.violated('R8', fi, 'key kinds (%s) -> (%s)' % (', '.join(pat), ', '.join(res)), why)
+                    ctx.violated(rid, fi, 'key kinds (%s) -> (%s)' % (', '.join(pat), ', '.join(res)), why)
             else:
                 nok += 1
-                ctx.holds('R8', '(%s) -> (%s)' % (','.join(pat), ','.join(res)))
+                ctx.holds(rid, '(%s) -> (%s)' % (','.join(pat), ','.join(res)))
     # the indexer is applied to the canonicalised key
     ev = run(ctx, fi, mode='join')
     if not any(T.call_name(e.a) == 'canonicalize_indexer' and e.a[2][:1] == (P_('key'),) for p in ev.paths for e in p.calls('canonicalize_indexer')):
-        ctx.violated('R8', fi, 'canonicalize_indexer', 'the key must be canonicalised (booleans -> positions, scalars -> int) before it is classified')
+        ctx.violated(rid, fi, 'canonicalize_indexer', 'the key must be canonicalised (booleans -> positions, scalars -> int) before it is classified')
 
 
 def rule_expanded_indexer(ctx):
